@@ -16,6 +16,7 @@ from dliswriter import DLISFile as DLISFileCls
 THEOREMS = ['Dlis.C14.history_independent', 'Dlis.C14.cachedWrite_transparent', 'Dlis.C14.pyEq_eq',
             'Dlis.C14.evict_coherent', 'Dlis.C14.signed_zero_collides', 'Dlis.C14.types_never_collide',
             'Dlis.C14.derived_dimension_history_independent', 'Dlis.C14.assigned_dimension_survives',
+            'Dlis.C14.derived_index_attributes_history_independent',
             'Dlis.C17.hc_restored']
 
 
@@ -376,6 +377,8 @@ def run(tier):
         # (f) the same at the level of the checks themselves, against the DimState model
         from harness import defaults as _defaults
         _defaults.sequence_stream(chk, model, bres, rng('C14', 'dimension-sequences'), 150 if tier == 'quick' else 1500)
+        from harness.props import c13 as _c13
+        _c13.frame_sequences(chk, model, bres, rng('C14', 'frame-sequences'), 100 if tier == 'quick' else 1000)
     finally:
         shutil.rmtree(tmp, ignore_errors=True)
     return finish(chk, bres, THEOREMS,
